@@ -787,9 +787,10 @@ class PyCdlib:
                 else:
                     hi = mid
             index = lo
-            tmpchild = thelist[index]
-            if index != len(thelist) and tmpchild.rock_ridge is not None and tmpchild.rock_ridge.name() == currpath:
-                child = thelist[index]
+            if index != len(thelist):
+                tmpchild = thelist[index]
+                if tmpchild.rock_ridge is not None and tmpchild.rock_ridge.name() == currpath:
+                    child = thelist[index]
 
             if child is None:
                 # We failed to find this component of the path, so break out of
